@@ -37,8 +37,9 @@ func JSONPBWithOpt(m protoreflect.ProtoMessage, filename string, fs afero.Fs, o 
 	return FJSONPBWithOpt(f, m, o)
 }
 
-// Recognise extra whitespace after a JSON key.
-var extraSpaceAfterKeyRE = regexp.MustCompile(`(?m)^(\s*"[^"]*": ) `)
+// Recognise extra whitespace after a JSON key. The key is matched as a whole JSON string, escapes
+// included, so that a string value containing \": is never mistaken for a key.
+var extraSpaceAfterKeyRE = regexp.MustCompile(`(?m)^(\s*"(?:[^"\\]|\\.)*": ) `)
 
 // FJSONPB ...
 func FJSONPB(w io.Writer, m protoreflect.ProtoMessage) error {
